@@ -111,7 +111,8 @@ INTERFACE_SET_COLON_COUNT = 3  # Format: transitive:direction:asn:route_target
 
 # Traffic rate limiting constants
 MIN_RATE_LIMIT_BPS = 9600  # Minimum rate limit in bytes per second
-MAX_RATE_LIMIT_BPS = 1000000000000  # Maximum rate limit (1 terabyte/s)
+MAX_RATE_LIMIT_BPS = 1000000000000  # Rate limit above which a warning is logged (1 terabyte/s)
+MAX_RATE_LIMIT_FLOAT = (2**24 - 1) * 2**104  # Largest value of the IEEE 754 single which carries the rate
 
 # DSCP (Differentiated Services Code Point) value range
 DSCP_MAX_VALUE = 0b111111  # DSCP is a 6-bit field (0-63)
@@ -401,8 +402,10 @@ def rate_limit(tokeniser: 'Tokeniser') -> ExtendedCommunities:
             lazymsg('flow.rate_limit.warning reason=too_low min_bps={min_bps}', min_bps=MIN_RATE_LIMIT_BPS),
             'configuration',
         )
+    if speed > MAX_RATE_LIMIT_FLOAT:
+        raise ValueError(f"'{speed}' is not a valid rate-limit\n  Must be at most {MAX_RATE_LIMIT_FLOAT}")
     if speed > MAX_RATE_LIMIT_BPS:
-        speed = MAX_RATE_LIMIT_BPS
+        # warn, but announce the rate which was asked for and not another one
         log.warning(
             lazymsg(
                 'flow.rate_limit.warning reason=too_high max_bps={max_bps} requested={speed}',
